@@ -165,6 +165,19 @@ def check_case(case):
                 viol.append((f"C19/matched/inverse/{d}", f"matching {a.nf}->{b.nf} flagged inverse={m.inverse}", dict(observed=obs_f)))
             if (m.scale, m.hq, bool(m.inverse)) != wm:
                 viol.append(("C19/matched/walker-mismatch", f"matching {(float(m.scale), m.hq, m.inverse)} vs reference {(float(wm[0]), wm[1], wm[2])}", dict(observed=obs_f)))
+    # -- the same atlas re-pointed to another initial point answers for the new origin (no state carried
+    #    over from the earlier query): ask for the same target again from a new origin
+    if not any(isinstance(x, Named) for x in list(walls) + [origin[0], target[0]]):
+        try:
+            new_origin = (float(origin[0]) * 2.0 + 1.0, nff if nff != nf0 else nf0)
+            at.origin = new_origin
+            back = at.path((target[0], nff))  # the SAME target as before, from the new origin
+            hits["repointed_origin"] = hits.get("repointed_origin", 0) + 1
+            wback, _ = ref.walk(walls, new_origin, (target[0], nff))
+            if [(s.origin, s.target, s.nf) for s in back] != wback:
+                viol.append(("C19/path/repointed-origin", "after re-pointing the atlas origin the path still answers for the earlier origin / differs from the reference walk", dict(observed=[(float(x.origin), float(x.target), int(x.nf)) for x in back])))
+        except Exception as e:
+            viol.append(("C19/raises/repointed-origin", f"path after re-pointing the origin raised {type(e).__name__}: {e}", {}))
     return dict(hits=hits, nseg=len(path)), viol
 
 
